@@ -2,7 +2,7 @@
 
 PROPERTIES = {
     "C18": dict(
-        modules=["serialization", "simulators"],
+        modules=["serialization", "simulators", "sample_codec"],
         level="proof",
         claim="codec round trip, refusal of truncated data and exception discipline proved for all inputs as postconditions over contracts on the real functions",
         note="floats as reals; struct/blake2b/int.to_bytes library contracts trusted; see evidence.trusted_base",
